@@ -6,7 +6,7 @@ consumes one decision bit, so every syntactic path is feasible.  Markers are num
 """
 
 PY_ONLY = {"while-else", "for-else", "try-else", "def"}
-C_ONLY = {"cfor", "dowhile", "switch"}
+C_ONLY = {"cfor", "cfor-noupd", "dowhile", "switch", "switch-dm"}
 
 
 class N:
@@ -22,10 +22,10 @@ class N:
 
 COMPOUND_PY = ["if", "if-else", "while", "while-else", "forin", "for-else", "try-except", "try-except-else-finally",
                "try-finally", "def", "class"]
-COMPOUND_C = ["if", "if-else", "while", "cfor", "dowhile", "forin", "switch", "try-except", "try-finally", "class"]
+COMPOUND_C = ["if", "if-else", "while", "cfor", "cfor-noupd", "dowhile", "forin", "switch", "switch-dm", "try-except", "try-finally", "class"]
 NBODIES = {"if": 1, "if-else": 2, "while": 1, "while-else": 2, "forin": 1, "for-else": 2, "try-except": 2,
-           "try-except-else-finally": 4, "try-finally": 2, "def": 1, "class": 1, "cfor": 1, "dowhile": 1, "switch": 3}
-LOOPS = {"while", "while-else", "forin", "for-else", "cfor", "dowhile"}
+           "try-except-else-finally": 4, "try-finally": 2, "def": 1, "class": 1, "cfor": 1, "cfor-noupd": 1, "dowhile": 1, "switch": 3, "switch-dm": 3}
+LOOPS = {"while", "while-else", "forin", "for-else", "cfor", "cfor-noupd", "dowhile"}
 
 
 def feats(nodes, acc=None, direct_try=False):
@@ -77,7 +77,7 @@ def items(ncomp, in_loop, in_try, compounds, depth, aux=False):
                 if kind in ("def", "class"):
                     body_in_loop = False
                     body_in_try = False
-                is_aux = (i >= 1 and kind not in ("if-else", "switch"))
+                is_aux = (i >= 1 and kind not in ("if-else", "switch", "switch-dm"))
                 for b in bodies(split[i], 2, body_in_loop, body_in_try, compounds, depth - 1, aux=is_aux):
                     for rest in rec(i + 1):
                         yield [b] + rest
@@ -256,6 +256,18 @@ def _cf(nodes, ind, ctx, lang):
                 out.append(f"{pad}for ({i} = 0; {ctx.cond(lang)}; {i}++) {{")
             out += _cf(n.bodies[0], ind + 1, ctx, lang)
             out.append(f"{pad}}}")
+        elif k == "cfor-noupd":
+            i = f"{v}i{ctx.marker()}"
+            if lang == "go":
+                out.append(f"{pad}for {i} := 0; {ctx.cond(lang)}; {{")
+            elif lang in ("java", "c"):
+                out.append(f"{pad}for (int {i} = 0; {ctx.cond(lang)}; ) {{")
+            elif lang == "javascript":
+                out.append(f"{pad}for (let {i} = 0; {ctx.cond(lang)}; ) {{")
+            else:
+                out.append(f"{pad}for ({i} = 0; {ctx.cond(lang)}; ) {{")
+            out += _cf(n.bodies[0], ind + 1, ctx, lang)
+            out.append(f"{pad}}}")
         elif k == "dowhile":
             if lang == "go":
                 out.append(f"{pad}for {{")
@@ -301,6 +313,19 @@ def _cf(nodes, ind, ctx, lang):
                 out.append(f"{pad}default:")
                 out += _cf(n.bodies[2], ind + 1, ctx, lang)
                 out.append(f"{pad}}}")
+        elif k == "switch-dm":
+            # the default label in the middle: case 1 (break) / default (falls through) / case 2
+            sel = "l[0]" if lang in ("java", "go") else f"{v}c"
+            out.append(f"{pad}switch {par(sel)} {{")
+            out.append(f"{pad}case 1:")
+            out += _cf(n.bodies[0], ind + 1, ctx, lang)
+            if lang != "go":
+                out.append(f"{pad}    break;")
+            out.append(f"{pad}default:")
+            out += _cf(n.bodies[2], ind + 1, ctx, lang)
+            out.append(f"{pad}case 2:")
+            out += _cf(n.bodies[1], ind + 1, ctx, lang)
+            out.append(f"{pad}}}")
         elif k == "class":
             m = ctx.marker()
             if lang == "java":
